@@ -80,6 +80,13 @@ func (win Window) SetCell(col int, row int, cell Cell) {
 	if row < 0 || col < 0 {
 		return
 	}
+	if cell.Width == 0 {
+		// The width was left for Vaxis to measure. Measure it now, the
+		// same way render would, so that a wide character is known to
+		// be wide to the checks of this window, its parents and the
+		// screen
+		cell.Width = win.Vx.characterWidth(cell.Grapheme)
+	}
 	if cell.Width > 1 && col+cell.Width > win.Width {
 		// A wide character that does not fit would hang over the
 		// right edge of the window
